@@ -199,6 +199,7 @@ func newSubscriber(parent *bus) *bus {
 		unsubch:       make(chan *bus),
 		lc:            lifecycle.New(),
 	}
+	sub.vt("new", "parent", parent)
 
 	go sub.run()
 
